@@ -4,6 +4,7 @@ package env
 // user-defined named version do not make the environment source panic.
 
 import (
+	"time"
 	"context"
 	"reflect"
 
@@ -48,6 +49,17 @@ type c16colls2 struct {
 type c16ptrs struct {
 	PI *int
 	PS *c16Name
+	// user-declared pointers to collections
+	PL *[]string
+	PM *map[string]string
+	PD *[]time.Duration
+}
+
+// tags made only of separator characters (they name no word)
+type c16odd struct {
+	U int    `dials:"_"`
+	V string `dials:"-_-"`
+	W int8
 }
 
 func c16env[T any](tname string, vars map[string]string) {
@@ -96,5 +108,9 @@ func HarnessC16EnvNamedElems() {
 }
 
 func HarnessC16EnvPointers() {
-	c16env[c16ptrs]("user pointers", map[string]string{"PI": "5", "PS": "n"})
+	c16env[c16ptrs]("user pointers", map[string]string{"PI": "5", "PS": "n", "PL": "a,b", "PM": "a:b", "PD": "1s,2s"})
+}
+
+func HarnessC16EnvOddTags() {
+	c16env[c16odd]("separator-only tags", map[string]string{"W": "3", "_": "1"})
 }
